@@ -89,6 +89,21 @@ TapeTree(t, n) ==
 
 BatchTree(ts, n) == T([i \in 1..Len(ts) |-> TapeTree(ts[i], n)])
 
+(* --- tolerated variant: mechanism drift, NOT part of the specification --- *)
+(* The return type specification says that a batch size of 1 is still a leading axis.  Statistics computed  *)
+(* from samples (expval / var / probs with finite shots) are observed WITHOUT that axis when the batch size  *)
+(* is 1.  The property statement only says that the shape is a function of the request, so a driver may     *)
+(* count an observation equal to this variant as drift - provided every configuration shows the same tree.  *)
+SqKinds == Scalars \cup {"probs"}
+LeafSq(m, s, n, b) == IF b = 1 /\ s > 0 /\ m.kind \in SqKinds THEN A(Fund(m, s, n)) ELSE Leaf(m, s, n, b)
+MeasLevelSq(t, s, n) ==
+  IF Len(t.meas) = 1 THEN LeafSq(t.meas[1], s, n, t.b)
+  ELSE T([i \in 1..Len(t.meas) |-> LeafSq(t.meas[i], s, n, t.b)])
+TapeTreeSq(t, n) ==
+  IF Partitioned(t) THEN T([j \in 1..Len(t.shots) |-> MeasLevelSq(t, t.shots[j], n)])
+  ELSE MeasLevelSq(t, ShotOf(t, 1), n)
+BatchTreeSq(ts, n) == T([i \in 1..Len(ts) |-> TapeTreeSq(ts[i], n)])
+
 (* --- Jacobians, tape level: P trainable scalar parameters --------------- *)
 ParLevel(sh, P) == IF P = 1 THEN A(sh) ELSE T([p \in 1..P |-> A(sh)])
 JLeafT(m, s, n, b, P) == ParLevel(BShape(b) \o Fund(m, s, n), P)
